@@ -25,6 +25,8 @@ type Client interface {
 	LoopHead(e *Engine, st *State, loop ast.Stmt) *State
 	LoopBack(e *Engine, st *State, loop ast.Stmt)
 	Stmt(e *Engine, st *State, s ast.Stmt) *State
+	// ScopeEnd is called when the scope of n ends, before facts about its variables are forgotten.
+	ScopeEnd(e *Engine, st *State, n ast.Node) *State
 }
 
 // BaseClient is a no-op Client for embedding.
@@ -43,6 +45,7 @@ func (BaseClient) Return(*Engine, *State, *ast.ReturnStmt)   {}
 func (BaseClient) LoopHead(*Engine, *State, ast.Stmt) *State { return nil }
 func (BaseClient) LoopBack(*Engine, *State, ast.Stmt)        {}
 func (BaseClient) Stmt(*Engine, *State, ast.Stmt) *State     { return nil }
+func (BaseClient) ScopeEnd(*Engine, *State, ast.Node) *State { return nil }
 
 // SiteResult aggregates the verdicts of all states reaching one syntactic site.
 type SiteResult struct {
@@ -91,28 +94,32 @@ func NewEngine(p *Program, pkg *packages.Package, fd *ast.FuncDecl, c Client) *E
 		e.debug = true
 	}
 	// variables assigned inside function literals, or whose address is taken, carry no facts.
-	var litDepth int
+	var litStack []*ast.FuncLit
+	captured := func(o types.Object) bool {
+		// declared outside the innermost enclosing literal
+		if len(litStack) == 0 || o == nil {
+			return false
+		}
+		l := litStack[len(litStack)-1]
+		return o.Pos() < l.Pos() || o.Pos() >= l.End()
+	}
 	var walk func(n ast.Node) bool
 	walk = func(n ast.Node) bool {
 		switch x := n.(type) {
 		case *ast.FuncLit:
-			litDepth++
+			litStack = append(litStack, x)
 			ast.Inspect(x.Body, walk)
-			litDepth--
+			litStack = litStack[:len(litStack)-1]
 			return false
 		case *ast.AssignStmt:
-			if litDepth > 0 {
-				for _, l := range x.Lhs {
-					if o := objOf(e.Info, l); o != nil && x.Tok != token.DEFINE {
-						e.noFacts[o] = true
-					}
+			for _, l := range x.Lhs {
+				if o := objOf(e.Info, l); captured(o) && x.Tok != token.DEFINE {
+					e.noFacts[o] = true
 				}
 			}
 		case *ast.IncDecStmt:
-			if litDepth > 0 {
-				if o := objOf(e.Info, x.X); o != nil {
-					e.noFacts[o] = true
-				}
+			if o := objOf(e.Info, x.X); captured(o) {
+				e.noFacts[o] = true
 			}
 		case *ast.UnaryExpr:
 			if x.Op == token.AND {
@@ -254,6 +261,7 @@ func (e *Engine) stmt(s ast.Stmt, in []*State) []*State {
 // pruneScope drops facts that mention a variable declared inside n (it is out of scope afterwards).
 func (e *Engine) pruneScope(in []*State, n ast.Node) []*State {
 	lo, hi := n.Pos(), n.End()
+	in = e.hookEach(in, func(st *State) *State { return e.Client.ScopeEnd(e, st, n) })
 	out := make([]*State, 0, len(in))
 	for _, st := range in {
 		out = append(out, st.kill(func(_ string, f *Fact) bool {
@@ -1149,6 +1157,12 @@ func (e *Engine) valueOf(st *State, x ast.Expr) *Fact {
 	case *ast.CallExpr:
 		if IsBuiltinCall(e.Info, v, "new") || IsBuiltinCall(e.Info, v, "make") {
 			return &Fact{Nil: 2, Tags: []string{"fresh:new"}}
+		}
+		if f := Callee(e.Info, v); f != nil {
+			switch f.FullName() {
+			case "fmt.Errorf", "errors.New":
+				return &Fact{Nil: 2}
+			}
 		}
 	}
 	if k := e.canon(st, x); k.OK {
